@@ -36,7 +36,10 @@ struct BareCore {
     Teakra::CoreTiming core_timing;
     Teakra::SharedMemory shared_memory;
     Teakra::MemoryInterfaceUnit miu;
-    Teakra::MemoryInterface mem;
+    // constructed in zero-filled storage: MemoryInterface leaves its MMIO pointer uninitialised when
+    // SetMMIO is never called; zero makes an access to the MMIO window a deterministic ASSERT outcome
+    void* mem_storage;
+    Teakra::MemoryInterface& mem;
     Teakra::RegisterState regs;
     std::unique_ptr<InterpHolder> interp;
 
